@@ -25,6 +25,10 @@
 namespace adept {
   namespace internal {
 
+#ifdef RJHOGAN_ADEPT_2_VERIF
+    verif_event_fn verif_event_ = 0;
+#endif
+
     StackStorageOrig::~StackStorageOrig() {
       if (statement_) {
 	delete[] statement_;
@@ -61,6 +65,9 @@ namespace adept {
       index_ = new_index;
       
       n_allocated_operations_ = new_size;
+#ifdef RJHOGAN_ADEPT_2_VERIF
+      ADEPT_VERIF_EVENT('g', new_size, min);
+#endif
     }
     
     // ... likewise for the statement stack
@@ -79,6 +86,9 @@ namespace adept {
       statement_ = new_statement;
       
       n_allocated_statements_ = new_size;
+#ifdef RJHOGAN_ADEPT_2_VERIF
+      ADEPT_VERIF_EVENT('s', new_size, min);
+#endif
     }
 
   }
